@@ -293,6 +293,10 @@ func (w *world) assign(ctx context.Context, method string) jrpc2.Handler {
 				case o == "bad":
 					ret = "bad"
 					return make(chan int), nil
+				case o == "badraw":
+					// a pre-encoded result that is not valid JSON: cannot be marshalled either
+					ret = "bad"
+					return json.RawMessage(`{"ok":}`), nil
 				}
 				return tok, nil
 			case <-w.drain:
